@@ -1,9 +1,10 @@
 """C07 - bracketing root finders return a root inside the bracket and terminate.
-E1: lattice designs of bisection (MC_Bisect, IEEE signed zeros as function values), of ITP (MC_Itp: any trial point the projection
+E1: lattice designs of bisection (MC_Bisect, IEEE signed zeros as function values), of ITP (MC_ItpP: any trial point the projection
     step admits) and of Brent (MC_Brent: the code's formulas, and ANY interpolated point) are model-checked against the contract:
     abscissae inside, sign change kept, iteration bounds, result near the root.
 E3 design level: every abscissa of every real brent() and bisection() run is reproduced bit for bit by the same modules
-    (Brent, Bisect) instantiated over doubles (Trace_Brent, Trace_Bisect).
+    (Brent, Bisect) instantiated over doubles (Trace_Brent, Trace_Bisect); every abscissa of every real itp() run must be a
+    point the abstract design ItpP admits in its current state (Trace_Itp, a refinement check).
 E2: TLC (Gen_C07) enumerates dyadic lattice brackets x root positions x tolerances x sign x solver.
 E3: seeded functions with known root sets (polynomial, exponential, trigonometric, flat near the root, several roots),
     brackets in either order / asymmetric / far from zero, tol 1e-12..1e-2, ITP parameters over and just outside their
@@ -109,8 +110,8 @@ def judge(ctx, cases):
         slim.append(r2)
     viols = fncommon.validate(ctx, slim, "Val_C07", "brk", nshards=12)
     # design level: every abscissa of every real brent() run against module Brent over doubles (drift, not a violation)
-    keys = ("id", "solver", "a", "b", "tol", "n_max", "evals", "n", "ret", "x")
-    for solver, module in (("brent", "Trace_Brent"), ("bisection", "Trace_Bisect")):
+    keys = ("id", "solver", "a", "b", "tol", "n_max", "k1", "k2", "n0", "evals", "n", "ret", "x")
+    for solver, module in (("brent", "Trace_Brent"), ("bisection", "Trace_Bisect"), ("itp", "Trace_Itp")):
         brows = [{k: r[k] for k in keys} for r in rows if r["solver"] == solver]
         if not brows:
             continue
@@ -136,7 +137,7 @@ def run(ctx):
     try:
         m = vlib.tlc("MC_Bisect", workers=4, timeout=900, deque=False)
         ctx.add_tlc(m, e1=True)
-        m = vlib.tlc("MC_Itp", workers=4, timeout=900, deque=False, xmx="6g")
+        m = vlib.tlc("MC_ItpP", workers=4, timeout=900, deque=False, xmx="6g")
         ctx.add_tlc(m, e1=True)
         m = vlib.tlc("MC_Brent", workers=4, timeout=900, deque=False)
         ctx.add_tlc(m, e1=True)
